@@ -38,14 +38,18 @@ type c14Op struct {
 	Partial   bool // get: read only a prefix, then close
 	Recursive bool
 	Think     time.Duration // fake-time pause before the op
+	// Hold (get, getrange): the returned reader is kept open and only read after this client's next call
+	// has completed and the other clients have had a turn (a reader is lazy: nothing obliges its user to
+	// drain it before asking for something else).
+	Hold bool
 }
 
 func (o c14Op) String() string {
 	switch o.Kind {
 	case "getrange":
-		return fmt.Sprintf("GetRange(%s,%d,%d)/chunk=%d", o.Name, o.Off, o.Len, o.Chunk)
+		return fmt.Sprintf("GetRange(%s,%d,%d)/chunk=%d%s", o.Name, o.Off, o.Len, o.Chunk, map[bool]string{true: "/read-after-next-call"}[o.Hold])
 	case "get":
-		return fmt.Sprintf("Get(%s)/chunk=%d/partial=%v", o.Name, o.Chunk, o.Partial)
+		return fmt.Sprintf("Get(%s)/chunk=%d/partial=%v%s", o.Name, o.Chunk, o.Partial, map[bool]string{true: "/read-after-next-call"}[o.Hold])
 	case "iter":
 		return fmt.Sprintf("Iter(%q,recursive=%v)", o.Name, o.Recursive)
 	}
@@ -192,6 +196,11 @@ type answer struct {
 }
 
 func c14Do(ctx context.Context, b objstore.Bucket, op c14Op) (a answer) {
+	return c14DoHeld(ctx, b, op, nil)
+}
+
+// c14DoHeld is c14Do with a pause between obtaining a reader and reading it.
+func c14DoHeld(ctx context.Context, b objstore.Bucket, op c14Op, between func()) (a answer) {
 	fail := func(err error) answer {
 		return answer{Err: true, NotFound: b.IsObjNotFoundErr(err), ErrText: err.Error()}
 	}
@@ -210,6 +219,9 @@ func c14Do(ctx context.Context, b objstore.Bucket, op c14Op) (a answer) {
 		limit := -1
 		if op.Partial {
 			limit = 3
+		}
+		if between != nil {
+			between()
 		}
 		data, err := readChunked(r, op.Chunk, limit)
 		cerr := r.Close()
@@ -258,7 +270,7 @@ type panicInfo struct {
 
 // c14Guarded runs one call and reports a panic raised under it; inThanos tells whether the innermost
 // non-runtime frame belongs to thanos (or its dependencies) rather than to the harness.
-func c14Guarded(ctx context.Context, b objstore.Bucket, op c14Op) (a answer, p *panicInfo) {
+func c14Guarded(ctx context.Context, b objstore.Bucket, op c14Op, between func()) (a answer, p *panicInfo) {
 	defer func() {
 		if r := recover(); r != nil {
 			p = &panicInfo{val: r, stack: string(debug.Stack())}
@@ -287,7 +299,7 @@ func c14Guarded(ctx context.Context, b objstore.Bucket, op c14Op) (a answer, p *
 			}
 		}
 	}()
-	return c14Do(ctx, b, op), nil
+	return c14DoHeld(ctx, b, op, between), nil
 }
 
 func describeAnswer(op c14Op, a answer) string {
@@ -508,10 +520,12 @@ func runC14(x *simkit.Exec) {
 				}
 				op.Len = drawLen(sizeOf[name])
 				op.Chunk = []int{0, 1, 7, 64}[x.Draw("chunk", 4)]
+				op.Hold = x.Bool("hold", 1, 4)
 			case 4, 8, 9:
 				op.Kind = "get"
 				op.Chunk = []int{0, 1, 7, 64}[x.Draw("chunk", 4)]
 				op.Partial = x.Bool("partial", 1, 3)
+				op.Hold = x.Bool("hold", 1, 6)
 			case 5:
 				op.Kind = "exists"
 			case 6:
@@ -569,12 +583,34 @@ func runC14(x *simkit.Exec) {
 			}
 			script := scripts[c]
 			s.Go(actor, func() {
-				for i, op := range script {
+				var runOp func(i int) (next int, ok bool)
+				runOp = func(i int) (int, bool) {
+					op := script[i]
+					next := i + 1
 					if op.Think > 0 {
 						time.Sleep(op.Think)
 					}
 					before := spy.faults.Load()
-					got, pan := c14Guarded(ctx, cb, op)
+					var nested int64 // bucket faults that hit the calls made while this one's reader was held
+					var between func()
+					innerOK := true
+					if op.Hold {
+						between = func() {
+							s.Probe("c14.reader_held_open")
+							if s.Park(ctx, s.OpID(actor, "hold")) != nil {
+								return
+							}
+							if next < len(script) {
+								b0 := spy.faults.Load()
+								next, innerOK = runOp(next)
+								nested += spy.faults.Load() - b0
+							}
+						}
+					}
+					got, pan := c14Guarded(ctx, cb, op, between)
+					if !innerOK {
+						return next, false
+					}
 					if pan != nil {
 						if !pan.inThanos {
 							panic(fmt.Sprintf("%v\n%s", pan.val, pan.stack)) // harness bug: reported as trouble by the kit
@@ -586,15 +622,15 @@ func runC14(x *simkit.Exec) {
 						s.Violate("same-answer-as-underlying-bucket", fmt.Sprintf("%s:panic:%s:%s", op.Kind, pan.fn, class),
 							"client %s op #%d %s panicked inside thanos: %v (subrange=%d maxSubRequests=%d cache=%s object size=%d; the underlying bucket answers %s)\n%s",
 							actor, i, op, pan.val, cfg.Sub, cfg.MaxSub, ccfg, sizeOf[op.Name], describeAnswer(op, c14Do(ctx, bkt.Inner, op)), pan.stack)
-						return
+						return next, false
 					}
-					faulted := spy.faults.Load() > before
+					faulted := spy.faults.Load()-nested > before
 					if faulted {
 						totalFaults.Add(1)
 					}
 					// reference: the in-memory bucket itself, same call, no cache, no simulator
 					ref := op
-					ref.Partial, ref.Chunk = false, 0
+					ref.Partial, ref.Chunk, ref.Hold = false, 0, false
 					want := c14Do(ctx, bkt.Inner, ref)
 					outcome := "ok"
 					if got.Err {
@@ -610,8 +646,12 @@ func runC14(x *simkit.Exec) {
 							"client %s op #%d %s (subrange=%d maxSubRequests=%d cache=%s object size=%d faulted=%v): %s\nbucket operations (tail):\n%scache operations (tail):\n%s",
 							actor, i, op, cfg.Sub, cfg.MaxSub, ccfg, sizeOf[op.Name], faulted, det,
 							simbucket.FormatLog(bkt.Log(), 20), simcache.FormatLog(store.Log(), 20))
-						return
+						return next, false
 					}
+					return next, true
+				}
+				for i, ok := 0, true; ok && i < len(script); {
+					i, ok = runOp(i)
 				}
 			})
 		}
